@@ -128,6 +128,35 @@ def run(ctx):
            rewind_in_batch=in_batch,
            crash_point='between the script batch and the rewind: a script registered below the current progress is never examined for the skipped range')
 
+    # (F48) ... nor is the removal of the pending matched-blocks records: a stale record recovered after a crash marks the new scripts as
+    # filtered up to the end of its range when it completes
+    clr = [(bid, t) for bid, t in P.call_sites(U, 'Storage::clear_matched_blocks')]
+    sepc = [t for bid, t in clr if bid in aft] + [t for bid, t in P.call_sites(U, 'Storage::remove_matched_blocks') if bid in aft]
+    ctx.ob('C08.R4', U.name, 'the pending matched-blocks records are not removed by a separate write after the script batch', bool(clr) and not sepc,
+           at=(sepc[0].span if sepc else uc[0][1].span),
+           crash_point='between the script batch and the clear: record (26, 7) survives; after restart its blocks are downloaded and update_block_number(32) '
+           'moves the script that was just registered at 0 to 32')
+    # (F49) the genesis block is filtered after the commit (it needs the committed scripts): the crash window is closed at start-up,
+    # init_genesis_block filters it again while a registered script is still at block 0
+    IG = ctx.body('Storage::init_genesis_block')
+    igfb = P.call_sites(IG, 'Storage::filter_block')
+    gen_after = [t for bid, t in P.call_sites(U, 'Storage::filter_block') if bid in aft]
+    ctx.ob('C08.R4', IG.name, 'a set_scripts that died before filtering the genesis block is completed at start-up (filter_block for scripts at block 0)',
+           (not gen_after) or (bool(igfb) and bool(P.call_sites(IG, 'Storage::get_filter_scripts'))), at=igfb[0][1].span if igfb else None,
+           crash_point='after the script batch, before filter_block(genesis): the script stays registered at 0, filters are requested from block 1')
+    # R7 (F45) the stored tip and its last-N headers are one write: a tip with the last-N headers of the previous tip makes the next
+    # reorg of that tip look like a long fork (abort on every start)
+    ULS = ctx.body('Storage::update_last_state')
+    direct_puts = [k for _, k, _ in P.call_keys(ULS) if re.match(r'^<DB as (Put|Delete)', k)]
+    called = P.transitive_callees(ULS.name)
+    indirect = sorted(f for f in called if f != ULS.name and f in W and not f.startswith('Batch::'))
+    ncommit = len(P.call_sites(ULS, 'Batch::commit'))
+    keys = {n for n in ('LAST_STATE_KEY', 'LAST_N_HEADERS_KEY') if P.const_uses(ULS, n)}
+    ctx.ob('C08.R7', ULS.name, 'LAST_STATE and LAST_N_HEADERS are written by one batch commit', not direct_puts and not indirect and ncommit == 1 and len(keys) == 2,
+           direct_puts=direct_puts, writers_called=indirect, commits=ncommit, keys=sorted(keys),
+           crash_point='after the tip put, before the last-N put: tip 30 with the headers remembered for tip 10; a 1-block reorg of 30 finds no fork point -> '
+           'proof from genesis -> panic!("long fork detected") on every start')
+
     # R5 -----------------------------------------------------------------------------------
     for name in ('Storage::filter_block', 'Storage::rollback_to_block'):
         Fb = ctx.body(name)
